@@ -142,4 +142,8 @@ CLAUSES = [
     Clause("empty_stack", cases, run_empty_stack, quick=500, thorough=4000, rule="pda_to_accept_on_empty_stack: " + RULE + "; result accepts only with empty stack; argument unchanged"),
     Clause("to_cfg", small_cases, run_to_cfg, quick=250, thorough=2500, rule="pda_to_cfg: " + RULE + "; grammar (reduced by the reference) generates exactly the accepted words"),
 ]
+from props import workbench as WB   # noqa: E402
+
+CLAUSES.append(Clause("object_history", lambda tier: WB.pda_programs(tier, "convert"), WB.run_pda, quick=300, thorough=3000,
+                      rule="(conversions applied to objects with a history) " + WB.PDA_RULE))
 KNOWN_PREDICATES = {}
